@@ -621,6 +621,24 @@ pub fn search(which: &str) -> Option<String> {
         for n in structured_lengths(1u64 << 18) { if let Some(x) = check_plan_scalar(n) { return Some(x); } }
         return None;
     }
+    if let Some(lim) = which.strip_prefix("primroot:") {
+        // stand-in for the ASSUMED contract of math_utils::primitive_root (Rader's index maps are permutations only if it returns a
+        // generator): for every prime p below the limit the returned root has multiplicative order p - 1 (independent naive
+        // factorization of p - 1, independent modular exponentiation)
+        let lim: u64 = lim.parse().unwrap_or(1 << 16);
+        fn mpow(mut b: u128, mut e: u128, m: u128) -> u128 { let mut r = 1u128; b %= m; while e > 0 { if e & 1 == 1 { r = r * b % m; } b = b * b % m; e >>= 1; } r }
+        let mut sieve = vec![true; lim as usize + 1];
+        for p in 2..=lim as usize {
+            if !sieve[p] { continue; }
+            let mut m = p * p; while m <= lim as usize { sieve[m] = false; m += p; }
+            let g = match quiet(|| crate::math_utils::primitive_root(p as u64)) { Ok(Some(g)) => g, Ok(None) => return Some(format!("primitive_root({}) returned None", p)), Err(e) => return Some(format!("primitive_root({}) panicked: {}", p, panic_msg(e))) };
+            if g == 0 || g >= p as u64 { return Some(format!("primitive_root({}) = {} is out of range", p, g)); }
+            let mut rest = p - 1; let mut q = 2usize;
+            while q * q <= rest { if rest % q == 0 { while rest % q == 0 { rest /= q; } if mpow(g as u128, ((p - 1) / q) as u128, p as u128) == 1 { return Some(format!("primitive_root({}) = {} is not a generator: {}^(({}-1)/{}) == 1 (mod {})", p, g, g, p, q, p)); } } q += 1; }
+            if rest > 1 && mpow(g as u128, ((p - 1) / rest) as u128, p as u128) == 1 { return Some(format!("primitive_root({}) = {} is not a generator: {}^(({}-1)/{}) == 1 (mod {})", p, g, g, p, rest, p)); }
+        }
+        return None;
+    }
     if which == "sqrt_limit" {
         // A-sqrt: for every m < 2^24, ((m*m) as f32).sqrt() as usize >= m  (so limit = that + 1 squared exceeds every n >= m^2 below (m+1)^2 by monotonicity)
         for m in 0u64..(1 << 24) { let n = m * m; if ((n as f32).sqrt() as u64) < m { return Some(format!("(n as f32).sqrt() as usize < sqrt(n) for n = {}", n)); } }
@@ -633,7 +651,7 @@ pub fn search(which: &str) -> Option<String> {
     }
 }
 pub fn known(which: &str) -> bool {
-    simd::known(which) || which.starts_with("opcount:") || which.starts_with("dft_scalar:") || which.starts_with("partition:") || which.starts_with("plan_scalar:") || which.starts_with("plan_history:") || which.starts_with("shapes:") || which.starts_with("chunks:") || which == "helpers_small" || which == "sqrt_limit"
+    simd::known(which) || which.starts_with("opcount:") || which.starts_with("dft_scalar:") || which.starts_with("partition:") || which.starts_with("plan_scalar:") || which.starts_with("plan_history:") || which.starts_with("shapes:") || which.starts_with("chunks:") || which == "helpers_small" || which == "sqrt_limit" || which.starts_with("primroot:")
         || matches!(which, "MixedRadix" | "MixedRadixSmall" | "GoodThomasAlgorithm" | "GoodThomasAlgorithmSmall" | "Radix4" | "Radix3" | "RadersAlgorithm" | "BluesteinsAlgorithm")
 }
 
